@@ -17,7 +17,7 @@ PROPERTY = "C30"
 LEVEL = "fault_enumeration"
 BUDGET = {"quick": (160, 170), "thorough": (6000, 1700)}
 RULE = ("workload = 1-2 seeded array objects (Waves / Images / DiffractionPatterns / PolarMeasurements / RealSpace- and "
-        "ReciprocalSpaceLineProfiles / MeasurementsEnsemble; 0-3 ensemble axes of every axis kind; float32/64, complex64/128, "
+        "ReciprocalSpaceLineProfiles / MeasurementsEnsemble / PotentialArray; 0-3 ensemble axes of every axis kind; float32/64, complex64/128, "
         "int32; metadata with tuples, nested dicts, numpy scalars, None) x {directory, zip} x {eager, lazy computed by SimScheduler, "
         "compute=False then compute} x overwrite of an existing target x compression level. Fault-free: reloaded object equal in "
         "type, values (bitwise), dtype, axes metadata and metadata. Fault sweep: every store operation the write and the read "
@@ -36,7 +36,9 @@ LEVEL_NOTE = "fault points enumerated per workload (cap 60, then sampled); workl
 
 SCRATCH = os.environ.get("VERIF_SCRATCH") or tempfile.gettempdir()
 TYPES = ["Images", "Waves", "DiffractionPatterns", "PolarMeasurements", "RealSpaceLineProfiles", "ReciprocalSpaceLineProfiles",
-         "MeasurementsEnsemble"]
+         "MeasurementsEnsemble", "PotentialArray"]
+ATTRS = ("energy", "sampling", "extent", "reciprocal_space", "fftshift", "slice_thickness", "exit_planes", "radial_sampling",
+         "azimuthal_sampling", "radial_offset", "azimuthal_offset")
 AXES = ["ScanAxis", "OrdinalAxis", "ParameterAxis", "ThicknessAxis", "PositionsAxis", "FrozenPhononsAxis", "TiltAxis",
         "AxisAlignedTiltAxis", "UnknownAxis", "NonLinearAxis", "RealSpaceAxis"]
 
@@ -99,9 +101,13 @@ def draw_object(ch):
     if t == "MeasurementsEnsemble" and not axes:
         axes = [draw_axis(ch, ch.range(1, 4, "axis-len"))]
     base = {"Images": 2, "Waves": 2, "DiffractionPatterns": 2, "PolarMeasurements": 2, "RealSpaceLineProfiles": 1,
-            "ReciprocalSpaceLineProfiles": 1, "MeasurementsEnsemble": 0}[t]
+            "ReciprocalSpaceLineProfiles": 1, "MeasurementsEnsemble": 0, "PotentialArray": 3}[t]
+    if t == "PotentialArray":
+        axes = axes[:1]
     base_shape = [ch.pick([4, 5, 8, 3], "base-n") for _ in range(base)]
-    if t == "Waves":
+    if t == "PotentialArray":
+        dtype = ch.pick(["float32", "float64"], "dtype")
+    elif t == "Waves":
         dtype = ch.pick(["complex64", "complex128"], "dtype")
     else:
         dtype = ch.pick(["float32", "float64", "complex64", "int32"], "dtype", weights=[4, 3, 1, 1])
@@ -117,6 +123,10 @@ def draw_object(ch):
     if t == "DiffractionPatterns":
         r["fftshift"] = ch.bool(0.5, "fftshift")
     r["sampling"] = ch.pick([0.1, 0.05, 0.2], "sampling")
+    if t == "PotentialArray":
+        ns = base_shape[0]
+        r["slice_thickness"] = [ch.pick([1.0, 0.5, 2.0], "st") for _ in range(ns)]
+        r["exit_planes"] = ch.pick([None, [ns - 1], [-1, ns - 1], [0, ns - 1]], "ep")
     return r
 
 
@@ -152,6 +162,10 @@ def make_object(r):
     elif t == "PolarMeasurements":
         obj = M.PolarMeasurements(arr, radial_sampling=s, azimuthal_sampling=0.5, radial_offset=1.0, azimuthal_offset=0.25,
                                   ensemble_axes_metadata=axes, metadata=meta)
+    elif t == "PotentialArray":
+        ep = r["exit_planes"]
+        obj = abtem.PotentialArray(arr, slice_thickness=tuple(r["slice_thickness"]), sampling=s, exit_planes=tuple(ep) if ep else None,
+                                   ensemble_axes_metadata=axes, metadata=meta)
     elif t == "RealSpaceLineProfiles":
         obj = M.RealSpaceLineProfiles(arr, sampling=s, ensemble_axes_metadata=axes, metadata=meta)
     elif t == "ReciprocalSpaceLineProfiles":
@@ -228,6 +242,18 @@ def compare(wl, loaded):
         m = oracle.axes_equal(w.axes_metadata, g.axes_metadata)
         if m:
             out.append(("axes", f"object {i} ({type(w).__name__}): {m}"))
+        for attr in ATTRS:
+            try:
+                a = getattr(w, attr)
+            except Exception:  # noqa: BLE001 - attribute absent or not defined for this type
+                continue
+            else:
+                try:
+                    b = getattr(g, attr)
+                except Exception as e:  # noqa: BLE001
+                    b = f"<{type(e).__name__}>"
+                if not oracle.values_equal(a, b):
+                    out.append(("attribute", f"object {i} ({type(w).__name__}): {attr} {b!r} != {a!r}"))
         if not oracle.values_equal(dict(w.metadata), dict(g.metadata)):
             out.append(("metadata", f"object {i}: metadata {dict(g.metadata)!r} != {dict(w.metadata)!r}"[:400]))
     return out
